@@ -171,10 +171,19 @@ def _check_combinators(tree):
     _expect_body(tree, "_decode_bool", [
         "if isinstance(v, str):\n    bool_v = str2bool(v)\nelse:\n    bool_v = bool(v)\n    if isinstance(v, (int, float)) and v not in (0, 1, 0.0, 1.0):\n        warnings.warn(UnsafeCastingWarning(raw_value=v, decoded_value=bool_v))",
         "return bool_v"])
-    _expect_body(tree, "_decode_int", [
-        "int_v = int(v)",
-        "if isinstance(v, bool):\n    warnings.warn(UnsafeCastingWarning(raw_value=v, decoded_value=int_v))\nelif int_v != float(v):\n    warnings.warn(UnsafeCastingWarning(raw_value=v, decoded_value=int_v))",
-        "return int_v"])
+    # _decode_int: does the lossy-cast test evaluate float(v) when v already is an int?  (float(10**400) raises OverflowError)
+    got = _body_text(find_def(tree, "_decode_int"))
+    shape = ("int_v = int(v)",
+             "if isinstance(v, bool):\n    warnings.warn(UnsafeCastingWarning(raw_value=v, decoded_value=int_v))\n"
+             "elif %s:\n    warnings.warn(UnsafeCastingWarning(raw_value=v, decoded_value=int_v))",
+             "return int_v")
+    guards = {"int_v != float(v)": True, "not isinstance(v, int) and int_v != float(v)": False}
+    cmp_ints = None
+    for g, val in guards.items():
+        if got == [shape[0], shape[1] % g, shape[2]]:
+            cmp_ints = val
+    if cmp_ints is None:
+        raise Unrecognised(f"_decode_int: body is not one of the modelled ones: {' | '.join(got)[:400]}")
     _expect_body(tree, "_decode_float", [
         "float_v = float(v)",
         "if isinstance(v, bool):\n    warnings.warn(UnsafeCastingWarning(raw_value=v, decoded_value=float_v))",
@@ -206,6 +215,7 @@ def _check_combinators(tree):
                  "decoding_function = get_decoding_fn(field_type)", "return decoded_value"):
         if want not in texts:
             raise Unrecognised(f"decode_field: statement `{want}` not found")
+    return cmp_ints
 
 
 # ---- encode ---------------------------------------------------------------------------------------
@@ -361,7 +371,7 @@ def emit(repo: str) -> str:
     enc = _parse(repo, ENC)
     ser = _parse(repo, SER)
     order = _dispatch_order(dec)
-    _check_combinators(dec)
+    cmp_ints = _check_combinators(dec)
     table = _encode_table(enc)
     key = const(module_assign(ser, "DC_TYPE_KEY"), str)
     sfx = _suffix_table(ser)
@@ -379,7 +389,9 @@ def emit(repo: str) -> str:
         "Definition enc_gen := enc ENCODE_TABLE.\n"
         "Definition encode_gen sigma encf := enc ENCODE_TABLE sigma encf false.\n"
         "Definition to_dict_gen sigma encf := enc ENCODE_TABLE sigma encf true.\n"
-        "Definition decode_gen := decode DISPATCH_ORDER UNION_STRATEGY DC_TYPE_KEY decode_bool_str.\n"
+        "(* _decode_int evaluates float(v) even when v already is an int *)\n"
+        f"Definition DECODE_INT_FLOAT_CMP : bool := {'true' if cmp_ints else 'false'}.\n"
+        "Definition decode_gen := decode DISPATCH_ORDER UNION_STRATEGY DC_TYPE_KEY decode_bool_str DECODE_INT_FLOAT_CMP.\n"
         "Definition transport_of_suffix (s : string) : option transport :=\n"
         "  match codec_of_suffix SUFFIX_TABLE s with Some c => transport_of_codec c | None => None end.\n"
     )
